@@ -60,7 +60,7 @@ impl Property for C15 {
     }
     fn rule(&self) -> &'static str {
         "projects with sub-directories d1, d1/d2, d3 and a symlinked directory ln -> d1; targets in \
-         every directory, scripts that chdir before redo-ifchange; commands issued from a random working \
+         every directory (in every third scenario one of them is itself a symbolic link to a directory, named by 2-3 successive commands), scripts that chdir before redo-ifchange; commands issued from a random working \
          directory naming 1-3 real files by 2-4 spellings each (relative, ./, detour through .., doubled \
          slash, absolute, via the symlink) on one command line, at -j1 and -jN, in one or two successive \
          commands with different spellings; oracle: no crash, exit 0, no new state directory below the working directory, at most one script execution per \
@@ -71,7 +71,7 @@ impl Property for C15 {
     fn assumptions(&self) -> Vec<String> {
         vec!["second sentence of C15 (lexical cleaning as a pure function, exhaustive over byte strings) is outside deterministic simulation; only the spellings generated here flow through normpath/relpath".into()]
     }
-    fn generate(&self, rng: &mut Rng, seed: u64, _tier: Tier, _index: u64) -> Case {
+    fn generate(&self, rng: &mut Rng, seed: u64, _tier: Tier, index: u64) -> Case {
         let dirs = vec!["d1".to_string(), "d1/d2".to_string(), "d3".to_string()];
         let all_dirs = ["", "d1", "d1/d2", "d3"];
         let mut files = vec![
@@ -113,6 +113,31 @@ impl Property for C15 {
             rules.push((format!("{}.do", path), Rule { version: 0, stmts }));
             targets.push(path);
         }
+        // every third scenario: a target that is itself a symbolic link to a
+        // directory (`ln -s d3 $3`, the "current release" idiom): every spelling
+        // must name the link, not what it points to
+        let link_target = if index % 3 == 2 {
+            let d = *rng.pick(&all_dirs);
+            let path = if d.is_empty() { "cur".to_string() } else { format!("{}/cur", d) };
+            let dest = {
+                let r = rel_to("d3", d);
+                if r.is_empty() { ".".to_string() } else { r }
+            };
+            rules.push((
+                format!("{}.do", path),
+                Rule {
+                    version: 0,
+                    stmts: vec![
+                        Stmt::IfChange(vec![rel_to("s0", d)]),
+                        Stmt::Out { mode: OutMode::LinkDir(dest), pad: 0 },
+                    ],
+                },
+            ));
+            targets.push(path.clone());
+            Some(path)
+        } else {
+            None
+        };
         files.push(("unrelated".into(), b"x\n".to_vec()));
         let mut sc = Scenario {
             family: "c15".into(),
@@ -122,15 +147,19 @@ impl Property for C15 {
             rules,
             history: Vec::new(),
         };
-        let ncmds = rng.range(1, 2);
+        let ncmds = if link_target.is_some() { rng.range(2, 3) } else { rng.range(1, 2) };
         let mut canon: Vec<Vec<String>> = Vec::new();
         for _ in 0..ncmds {
             let cwd = rng.pick(&all_dirs).to_string();
             let mut args = Vec::new();
             let mut cs = Vec::new();
             let nreal = rng.range(1, 3);
-            for _ in 0..nreal {
-                let t = rng.pick(&targets).clone();
+            for k in 0..nreal {
+                let t = match &link_target {
+                    // the link is named by every command of its scenario
+                    Some(l) if k == 0 => l.clone(),
+                    _ => rng.pick(&targets).clone(),
+                };
                 let nsp = rng.range(1, 3);
                 for _ in 0..nsp {
                     args.push(spell(rng, &t, &cwd));
